@@ -63,7 +63,15 @@ UNITS = [None, "one", "m", "us", "counts", "angstrom"]
 
 @st.composite
 def value_desc(draw, strings=cif_string):
-    kind = draw(st.sampled_from(["str", "str", "str", "int", "float", "sc", "sc_var", "sc_str", "datetime"]))
+    kind = draw(st.sampled_from(["str", "str", "str", "int", "float", "sc", "sc_var", "sc_str", "datetime",
+                                 "np_float", "np_int"]))
+    if kind == "np_float":
+        # numbers and strings as numpy scalars (arr.mean(), arr[0]): same value, another Python type
+        return {"t": "np_float", "v": draw(nice_float), "np": "float64"}
+    if kind == "np_int":
+        return {"t": "np_int", "v": draw(st.integers(-10**9, 10**9)), "np": draw(st.sampled_from(["int64", "int32"]))}
+    if kind == "np_str":
+        return {"t": "np_str", "v": draw(strings)}
     if kind == "str":
         return {"t": "str", "v": draw(strings)}
     if kind == "int":
@@ -89,6 +97,15 @@ def build_value(d):
     t = d["t"]
     if t in ("str", "int", "float"):
         return d["v"]
+    if t == "np_float":
+        import numpy as np
+        return getattr(np, d["np"])(d["v"])
+    if t == "np_int":
+        import numpy as np
+        return getattr(np, d["np"])(d["v"])
+    if t == "np_str":
+        import numpy as np
+        return np.str_(d["v"])
     if t == "sc":
         return sc.scalar(d["v"], unit=d["unit"])
     if t == "sc_var":
@@ -100,10 +117,13 @@ def build_value(d):
 
 def expected_of(d):
     t = d["t"]
-    if t in ("str", "sc_str"):
+    if t in ("str", "sc_str", "np_str"):
         return ("str", d["v"])
-    if t == "int":
+    if t in ("int", "np_int"):
         return ("int", d["v"])
+    if t == "np_float":
+        import numpy as np
+        return ("float", float(getattr(np, d["np"])(d["v"])))
     if t in ("float", "sc"):
         return ("float", d["v"])
     if t == "sc_var":
@@ -282,7 +302,7 @@ def check_value(case):
             if d["t"] in ("str", "sc_str"):
                 col = sc.array(dims=["row"], values=[d["v"], "x"])
                 exp_rows = [exp, ("str", "x")]
-            elif d["t"] == "int":
+            elif d["t"] in ("int", "np_int"):
                 col = sc.array(dims=["row"], values=[d["v"], 1], dtype="int64", unit=None)
                 exp_rows = [exp, ("int", 1)]
             elif d["t"] == "datetime":
